@@ -1,0 +1,285 @@
+//go:build verif
+
+package proxy
+
+import (
+	"net"
+	"sync/atomic"
+
+	"github.com/fatedier/frp/client/event"
+	v1 "github.com/fatedier/frp/pkg/config/v1"
+	"github.com/fatedier/frp/pkg/msg"
+	"github.com/fatedier/frp/verif"
+)
+
+// C19 "the client keeps exactly the configured-and-healthy proxies registered":
+// the wrapper's phase machine and the manager's reload, function by function.
+
+// The wrapper's status (phase, error, remote address, timestamps) is shared by
+// the check worker, the control reader (SetRunningStatus), reloads (Stop) and
+// work connections (InWorkConn): every access holds mu (obligations lock.*).
+//
+//verif:guarded Wrapper mu WorkingStatus lastSendStartMsg lastStartErr
+//verif:guarded Manager mu proxies
+
+// Unknown code reached from the wrapper. Assumed frames (listed in the
+// evidence): the event handler (Manager.HandleEvent -> transporter.Send) and
+// the concrete proxy's Run / Close / InWorkConn do not touch wrapper or manager
+// state.
+//
+//verif:fieldfn Wrapper handler
+func verifSpec_handler(payload any) error {
+	verif.HavocExcept("H.client.proxy.Wrapper.", "H.client.proxy.Manager.", "ChClosed@H.client.proxy.Wrapper.", "Md.map_LstringR_Pclient.proxy.Wrapper", "Mv.map_LstringR_Pclient.proxy.Wrapper", "Ml.map_LstringR_Pclient.proxy.Wrapper")
+	return verif.Any[error]()
+}
+
+//verif:contract (~/client/proxy.Proxy).Run
+//verif:trusted
+//verif:modifies *
+//verif:preserves H.client.proxy.Wrapper. H.client.proxy.Manager. ChClosed@H.client.proxy.Wrapper. map_LstringR_Pclient.proxy.Wrapper
+func verif_Proxy_Run(p Proxy) { _ = p.Run() }
+
+//verif:contract (~/client/proxy.Proxy).Close
+//verif:trusted
+//verif:modifies *
+//verif:preserves H.client.proxy.Wrapper. H.client.proxy.Manager. ChClosed@H.client.proxy.Wrapper. map_LstringR_Pclient.proxy.Wrapper
+func verif_Proxy_Close(p Proxy) { p.Close() }
+
+//verif:contract (~/client/proxy.Proxy).InWorkConn
+//verif:trusted
+//verif:modifies *
+//verif:preserves H.client.proxy.Wrapper. H.client.proxy.Manager. ChClosed@H.client.proxy.Wrapper. map_LstringR_Pclient.proxy.Wrapper
+func verif_Proxy_InWorkConn(p Proxy, c net.Conn, m *msg.StartWorkConn) { p.InWorkConn(c, m) }
+
+const (
+	evHandler = "fieldfn:H.client.proxy.Wrapper.handler"
+	evRun     = "Proxy).Run"
+	evPClose  = "Proxy).Close"
+)
+
+// VerifStartSent / VerifCloseSent: the handler was given a registration /
+// a withdrawal for this wrapper in the events considered.
+func verifIsStart(p any) bool { _, ok := p.(*event.StartProxyPayload); return ok }
+func verifIsClose(p any) bool { _, ok := p.(*event.CloseProxyPayload); return ok }
+
+// SetRunningStatus: a server reply is honoured only while the wrapper waits for
+// one ("reported status follows only the legal transitions"): in any other
+// phase nothing changes and the proxy is not run. An error reply leads to
+// "start error" without running; a successful reply runs the proxy and leads
+// to "running", or - when the local start fails - withdraws the registration
+// and leads to "start error".
+//
+//verif:contract (*~/client/proxy.Wrapper).SetRunningStatus
+//verif:props C19
+func verif_SetRunningStatus(pw *Wrapper, remoteAddr string, respErr string) {
+	verif.Requires(pw.pxy != nil && pw.handler != nil, "constructed_by_NewWrapper")
+	phase0, err0, addr0 := pw.Phase, pw.Err, pw.RemoteAddr
+	verif.ResetEvents()
+	err := pw.SetRunningStatus(remoteAddr, respErr)
+	ran := verif.Called(evRun)
+	if phase0 != ProxyPhaseWaitStart {
+		verif.Ensures(err != nil && !ran && !verif.Called(evHandler), "reply_outside_wait_start_is_ignored")
+		verif.Ensures(pw.Phase == phase0 && pw.Err == err0 && pw.RemoteAddr == addr0, "reply_outside_wait_start_changes_nothing")
+	} else if respErr != "" {
+		verif.Ensures(err != nil && !ran && pw.Phase == ProxyPhaseStartErr && pw.Err == respErr, "error_reply_leads_to_start_error")
+	} else {
+		verif.Ensures(ran, "accepted_reply_runs_the_proxy")
+		if verif.RetErr(evRun, 0) == nil {
+			verif.Ensures(err == nil && pw.Phase == ProxyPhaseRunning && pw.Err == "" && pw.RemoteAddr == remoteAddr, "running_after_successful_start")
+			verif.Ensures(!verif.Called(evHandler), "no_message_on_successful_start")
+		} else {
+			verif.Ensures(err != nil && pw.Phase == ProxyPhaseStartErr, "failed_local_start_leads_to_start_error")
+			verif.Ensures(verif.Called(evHandler) && verifIsClose(verif.NthArg[any](evHandler, 0, 0)), "failed_local_start_withdraws_the_registration")
+		}
+	}
+	verif.Ensures(!verif.Held(&pw.mu), "lock_released")
+}
+
+// Stop: "entries that disappeared or changed are stopped and closed at the
+// server": both channels are closed (the workers end), the proxy is closed,
+// the phase is "closed" and a CloseProxy naming this proxy goes to the server.
+//
+//verif:contract (*~/client/proxy.Wrapper).Stop
+//verif:props C19
+func verif_Stop(pw *Wrapper) {
+	verif.Requires(pw.pxy != nil && pw.handler != nil && pw.closeCh != nil && pw.healthNotifyCh != nil, "constructed_by_NewWrapper")
+	verif.Requires(!verif.Closed(pw.closeCh) && !verif.Closed(pw.healthNotifyCh), "stopped_at_most_once")
+	name := pw.Name
+	verif.ResetEvents()
+	pw.Stop()
+	verif.Ensures(verif.Closed(pw.closeCh) && verif.Closed(pw.healthNotifyCh), "workers_told_to_end")
+	verif.Ensures(verif.Called(evPClose), "proxy_closed")
+	verif.Ensures(pw.Phase == ProxyPhaseClosed, "phase_closed")
+	p := verif.NthArg[any](evHandler, 0, 0)
+	cp, isClose := p.(*event.CloseProxyPayload)
+	verif.Ensures(verif.Called(evHandler) && isClose && cp.CloseProxyMsg != nil && cp.CloseProxyMsg.ProxyName == name, "close_proxy_sent_for_this_name")
+	verif.Ensures(!verif.Held(&pw.mu), "lock_released")
+}
+
+// InWorkConn: "a stopped proxy ... accepts no further work connection": a work
+// connection is handed to the proxy only while the phase is "running";
+// otherwise it is closed.
+//
+//verif:contract (*~/client/proxy.Wrapper).InWorkConn
+//verif:props C19 C16
+func verif_InWorkConn(pw *Wrapper, workConn net.Conn, m *msg.StartWorkConn) {
+	phase0 := pw.Phase
+	verif.ResetEvents()
+	pw.InWorkConn(workConn, m)
+	handed := verif.Called("Proxy).InWorkConn")
+	if phase0 != ProxyPhaseRunning || pw.pxy == nil {
+		verif.Ensures(!handed && verif.CalledWith("Conn).Close", 0, workConn), "not_running_refuses_and_closes")
+	} else {
+		verif.Ensures(handed && !verif.Called("Conn).Close"), "running_hands_over")
+	}
+}
+
+//verif:pure
+func verifHeadPhase(pw *Wrapper) string { return pw.Phase }
+
+// One completed iteration of the status worker (arbitrary iteration, loop cut
+// at its head; phase0 is the phase at the start). A registration is sent only
+// while healthy and only from "new", "check failed", or a timed-out "wait
+// start" / "start error"; it leaves the wrapper in "wait start". While
+// unhealthy a running or waiting proxy is withdrawn (CloseProxy) and becomes
+// "check failed". In every other case the phase stays and nothing is sent - in
+// particular nothing is ever sent for "closed" or "running".
+//
+//verif:loopbody (*~/client/proxy.Wrapper).checkWorker 1 check=verifWorkerStep args=pw head=verifHeadPhase
+func verifWorkerStep(pw *Wrapper, phase0 string) bool {
+	healthy := verif.IterRet[uint32]("atomic.LoadUint32", 0) == 0
+	sent := verif.CalledInIter(evHandler)
+	if !sent {
+		return pw.Phase == phase0 && (healthy || (phase0 != ProxyPhaseRunning && phase0 != ProxyPhaseWaitStart)) &&
+			(!healthy || (phase0 != ProxyPhaseNew && phase0 != ProxyPhaseCheckFailed))
+	}
+	p := verif.IterArg[any](evHandler, 0)
+	if healthy {
+		sp, isStart := p.(*event.StartProxyPayload)
+		return isStart && sp.NewProxyMsg != nil && sp.NewProxyMsg.ProxyName == v1.VerifNameOf(pw.Cfg) &&
+			pw.Phase == ProxyPhaseWaitStart &&
+			(phase0 == ProxyPhaseNew || phase0 == ProxyPhaseCheckFailed || phase0 == ProxyPhaseWaitStart || phase0 == ProxyPhaseStartErr)
+	}
+	cp, isClose := p.(*event.CloseProxyPayload)
+	return isClose && cp.CloseProxyMsg != nil && cp.CloseProxyMsg.ProxyName == pw.Name &&
+		pw.Phase == ProxyPhaseCheckFailed && (phase0 == ProxyPhaseRunning || phase0 == ProxyPhaseWaitStart)
+}
+
+//verif:loop (*~/client/proxy.Wrapper).checkWorker 1 inv=verifWorkerInv args=pw
+func verifWorkerInv(pw *Wrapper) bool { return pw.handler != nil && pw.Cfg != nil }
+
+//verif:contract (*~/client/proxy.Wrapper).checkWorker
+//verif:props C19
+func verif_checkWorker(pw *Wrapper) {
+	verif.Requires(pw.handler != nil && pw.Cfg != nil, "constructed_by_NewWrapper")
+	verif.ResetEvents()
+	pw.checkWorker()
+	verif.Ensures(!verif.Held(&pw.mu), "lock_released")
+}
+
+// The health callbacks set the flag the worker reads (0 healthy, 1 unhealthy)
+// and never panic, even after Stop closed the notification channel.
+//
+//verif:contract (*~/client/proxy.Wrapper).statusNormalCallback
+//verif:props C19 C16
+func verif_statusNormalCallback(pw *Wrapper) {
+	pw.statusNormalCallback()
+	verif.Ensures(atomic.LoadUint32(&pw.health) == 0, "healthy_flag_set")
+}
+
+//verif:contract (*~/client/proxy.Wrapper).statusFailedCallback
+//verif:props C19 C16
+func verif_statusFailedCallback(pw *Wrapper) {
+	pw.statusFailedCallback()
+	verif.Ensures(atomic.LoadUint32(&pw.health) == 1, "unhealthy_flag_set")
+}
+
+// ---------------------------------------------------------------- the manager
+
+// HandleWorkConn: "the client dispatches on the proxy name": the connection
+// goes to the wrapper registered under exactly that name, or is closed.
+//
+//verif:contract (*~/client/proxy.Manager).HandleWorkConn
+//verif:props C19 C01
+func verif_HandleWorkConn(pm *Manager, name string, workConn net.Conn, m *msg.StartWorkConn) {
+	pw, ok := pm.proxies[name]
+	verif.ResetEvents()
+	pm.HandleWorkConn(name, workConn, m)
+	if ok {
+		verif.Ensures(verif.CalledWith("Wrapper).InWorkConn", 0, pw) && verif.CalledWith("Wrapper).InWorkConn", 1, workConn), "handed_to_the_wrapper_of_that_name")
+		verif.Ensures(verif.CallCount("Wrapper).InWorkConn") == 1, "handed_to_one_wrapper_only")
+	} else {
+		verif.Ensures(!verif.Called("Wrapper).InWorkConn") && verif.CalledWith("Conn).Close", 0, workConn), "unknown_name_closes")
+	}
+	verif.Ensures(!verif.HeldR(&pm.mu), "lock_released")
+}
+
+// StartProxy: a server reply reaches the wrapper of exactly the named proxy.
+//
+//verif:contract (*~/client/proxy.Manager).StartProxy
+//verif:props C19
+func verif_StartProxy(pm *Manager, name string, remoteAddr string, serverRespErr string) {
+	pw, ok := pm.proxies[name]
+	verif.ResetEvents()
+	err := pm.StartProxy(name, remoteAddr, serverRespErr)
+	if ok {
+		verif.Ensures(verif.CalledWith("Wrapper).SetRunningStatus", 0, pw) && verif.CalledWith("Wrapper).SetRunningStatus", 1, remoteAddr) && verif.CalledWith("Wrapper).SetRunningStatus", 2, serverRespErr), "reply_reaches_the_named_wrapper")
+		verif.Ensures(err == verif.RetErr("Wrapper).SetRunningStatus", 0), "wrapper_verdict_returned")
+	} else {
+		verif.Ensures(err != nil && !verif.Called("Wrapper).SetRunningStatus"), "unknown_name_is_an_error")
+	}
+}
+
+// Reload, first loop (arbitrary running entry): it is stopped and removed
+// exactly when its name is no longer configured or its configuration changed;
+// otherwise it is left alone ("unchanged entries keep running without
+// re-registration").
+//
+//verif:loopbody (*~/client/proxy.Manager).UpdateAll 1 check=verifReloadDrop args=pm,name,pxy,proxyCfgsMap
+func verifReloadDrop(pm *Manager, name string, pxy *Wrapper, cfgs map[string]v1.ProxyConfigurer) bool {
+	changed := !verif.Has(cfgs, name) || !verif.IterRet[bool]("reflect.DeepEqual", 0)
+	stopped := verif.CalledWithInIter("Wrapper).Stop", 0, pxy)
+	if changed {
+		return stopped && !verif.Has(pm.proxies, name)
+	}
+	return !verif.CalledInIter("Wrapper).Stop") && verif.Has(pm.proxies, name) && pm.proxies[name] == pxy
+}
+
+// Reload, second loop (arbitrary configured entry): afterwards a wrapper is
+// registered under its name; one is created and started exactly when none was
+// there, and an existing one is neither restarted nor stopped.
+//
+//verif:loopbody (*~/client/proxy.Manager).UpdateAll 2 check=verifReloadAdd args=pm,name
+func verifReloadAdd(pm *Manager, name string) bool {
+	if !verif.Has(pm.proxies, name) {
+		return false
+	}
+	if verif.CalledInIter("proxy.NewWrapper") {
+		w := verif.IterRet[*Wrapper]("proxy.NewWrapper", 0)
+		return pm.proxies[name] == w && verif.CalledWithInIter("Wrapper).Start", 0, w) && !verif.CalledInIter("Wrapper).Stop")
+	}
+	return !verif.CalledInIter("Wrapper).Start") && !verif.CalledInIter("Wrapper).Stop")
+}
+
+//verif:contract (*~/client/proxy.Manager).UpdateAll
+//verif:props C19
+func verif_UpdateAll(pm *Manager, proxyCfgs []v1.ProxyConfigurer) {
+	verif.Requires(pm.proxies != nil, "constructed_by_NewManager")
+	verif.ResetEvents()
+	pm.UpdateAll(proxyCfgs)
+	verif.Ensures(!verif.Held(&pm.mu), "lock_released")
+}
+
+// Close stops every wrapper and forgets them.
+//
+//verif:loopbody (*~/client/proxy.Manager).Close 1 check=verifCloseStops args=pxy
+func verifCloseStops(pxy *Wrapper) bool { return verif.CalledWithInIter("Wrapper).Stop", 0, pxy) }
+
+//verif:contract (*~/client/proxy.Manager).Close
+//verif:props C19
+func verif_Manager_Close(pm *Manager) {
+	verif.ResetEvents()
+	pm.Close()
+	verif.Ensures(len(pm.proxies) == 0, "no_wrapper_left")
+	verif.Ensures(!verif.Held(&pm.mu), "lock_released")
+}
